@@ -313,8 +313,12 @@ func Eq(a, b *T) *T {
 	if a.String() == b.String() {
 		return True
 	}
-	if a.isLit() && b.isLit() {
-		return BoolT(a.Lit.Cmp(b.Lit) == 0)
+	if a.Sort == SInt {
+		if x, ok := GroundInt(a); ok {
+			if y, ok := GroundInt(b); ok {
+				return BoolT(x.Cmp(y) == 0)
+			}
+		}
 	}
 	if a.Sort == SBool {
 		switch {
@@ -380,35 +384,67 @@ func wrap64big(x *big.Int) *big.Int {
 func goDivBig(a, b *big.Int) *big.Int { return new(big.Int).Quo(a, b) }
 func goRemBig(a, b *big.Int) *big.Int { return new(big.Int).Rem(a, b) }
 
-// Arith builds wrap64(a op b) for op in + - * / % with Go semantics (division
-// by zero yields 0 in the term; the error term of the operator guards it).
-func Arith(op string, a, b *T) *T {
-	if a.isLit() && b.isLit() {
-		var r *big.Int
-		switch op {
-		case "+":
-			r = new(big.Int).Add(a.Lit, b.Lit)
-		case "-":
-			r = new(big.Int).Sub(a.Lit, b.Lit)
-		case "*":
-			r = new(big.Int).Mul(a.Lit, b.Lit)
-		case "/":
-			if b.Lit.Sign() == 0 {
-				r = big.NewInt(0)
-			} else {
-				r = goDivBig(a.Lit, b.Lit)
-			}
-		case "%":
-			if b.Lit.Sign() == 0 {
-				r = big.NewInt(0)
-			} else {
-				r = goRemBig(a.Lit, b.Lit)
-			}
-		}
-		return IntBig(wrap64big(r))
+// GroundInt evaluates an integer term without free symbols (literals, + - wrap64
+// and the Go arithmetic functions on ground arguments).
+func GroundInt(t *T) (*big.Int, bool) {
+	if t.Sort != SInt {
+		return nil, false
 	}
+	if t.isLit() {
+		return t.Lit, true
+	}
+	switch t.Op {
+	case "wrap64":
+		x, ok := GroundInt(t.Args[0])
+		if !ok {
+			return nil, false
+		}
+		return wrap64big(x), true
+	case "+", "-", "gomul", "godiv", "gomod":
+		if len(t.Args) != 2 {
+			return nil, false
+		}
+		a, ok1 := GroundInt(t.Args[0])
+		b, ok2 := GroundInt(t.Args[1])
+		if !ok1 || !ok2 {
+			return nil, false
+		}
+		switch t.Op {
+		case "+":
+			return new(big.Int).Add(a, b), true
+		case "-":
+			return new(big.Int).Sub(a, b), true
+		case "gomul":
+			return new(big.Int).Mul(a, b), true
+		case "godiv":
+			if b.Sign() == 0 {
+				return big.NewInt(0), true
+			}
+			return goDivBig(a, b), true
+		default:
+			if b.Sign() == 0 {
+				return new(big.Int).Set(a), true // a - 0*godiv(a,0)
+			}
+			return goRemBig(a, b), true
+		}
+	}
+	return nil, false
+}
+
+// Arith builds wrap64(a op b) for op in + - * / % with Go semantics. The
+// non-linear operations are applications of the OPAQUE functions gomul / godiv
+// / gomod (DESIGN 6.6); they are not evaluated here even on literals, so that
+// real code and reference always build the same applications; BuildQuery
+// asserts the value of every ground application (GroundAxioms).
+func Arith(op string, a, b *T) *T {
 	switch op {
 	case "+", "-":
+		if a.isLit() && b.isLit() {
+			if op == "+" {
+				return IntBig(wrap64big(new(big.Int).Add(a.Lit, b.Lit)))
+			}
+			return IntBig(wrap64big(new(big.Int).Sub(a.Lit, b.Lit)))
+		}
 		return mk("wrap64", SInt, mk(op, SInt, a, b))
 	case "*":
 		return mk("wrap64", SInt, mk("gomul", SInt, a, b))
@@ -420,9 +456,38 @@ func Arith(op string, a, b *T) *T {
 	panic("arith " + op)
 }
 
+// GroundAxioms: (= app value) for every ground application of the opaque
+// arithmetic functions occurring in ts.
+func GroundAxioms(ts ...*T) []*T {
+	seen := map[string]bool{}
+	var out []*T
+	for _, t := range ts {
+		if t == nil {
+			continue
+		}
+		t.Walk(func(x *T) {
+			if x.Op != "gomul" && x.Op != "godiv" && x.Op != "gomod" {
+				return
+			}
+			k := x.String()
+			if seen[k] {
+				return
+			}
+			seen[k] = true
+			if v, ok := GroundInt(x); ok {
+				out = append(out, mk("=", SBool, x, IntBig(v)))
+			}
+		})
+	}
+	sort.Slice(out, func(i, j int) bool { return out[i].String() < out[j].String() })
+	return out
+}
+
 func Cmp(op string, a, b *T) *T {
-	if a.isLit() && b.isLit() {
-		c := a.Lit.Cmp(b.Lit)
+	x, okx := GroundInt(a)
+	y, oky := GroundInt(b)
+	if okx && oky {
+		c := x.Cmp(y)
 		switch op {
 		case "<":
 			return BoolT(c < 0)
